@@ -359,6 +359,7 @@ func (m *Machine) runPath(fn *ssa.Function, prefix []int64) (end pathEnd) {
 	m.clock = 0
 	m.model, m.modelValid, m.auxVars = nil, false, nil
 	m.fs = nil
+	m.mapOrder = nil
 	defer func() {
 		r := recover()
 		switch r := r.(type) {
